@@ -9,6 +9,8 @@ using namespace vf;
 
 static Fields gen(Tape &t) {
   Fields f;
+  LongMode lm(t);
+  if (lm.on()) f.seti("long", 1);
   std::string s;
   int src = 0;
   if (t.chance(1, 5)) {
